@@ -1128,8 +1128,8 @@ def run(ctx):
         ctx.case(cj)
         ok, outj = ctx.call("load_data (joined basis rows)", cj, load_data, f1, None, f5, None)
         if ok:
-            ctx.require("joined basis rows as written", len(outj) == 2 and [str(x) for x in np.atleast_1d(outj[1])] == joined.tolist(), cj,
-                        [str(x) for x in np.atleast_1d(outj[1])] if len(outj) == 2 else len(outj))
+            ctx.require("joined basis rows as written", len(outj) == 2 and [str(x) for x in np.asarray(outj[1]).reshape(-1)] == joined.tolist(), cj,
+                        [str(x) for x in np.asarray(outj[1]).reshape(-1)] if len(outj) == 2 else len(outj))
         for mask in range(8):                                   # which optional files are passed
             use_psi, use_tb, use_ab = bool(mask & 1), bool(mask & 2), bool(mask & 4)
             c2 = {"fn": "load_data", "N": N, "n": n, "psi": use_psi, "tr_bases": use_tb, "bases": use_ab}
